@@ -342,7 +342,12 @@ func (x *Exec) findPkgByName(env *SpecEnv, name string) *types.Package {
 func (x *Exec) evalSelector(env *SpecEnv, s *ast.SelectorExpr) specVal {
 	if id, ok := s.X.(*ast.Ident); ok {
 		if id.Name == "caller" && env.callerFrame != nil {
-			if v, ok := x.localByName(env, env.callerFrame, s.Sel.Name); ok {
+			name := s.Sel.Name
+			if name == "G_idx" || strings.HasPrefix(name, "G_idx__") {
+				// caller.$idx: hidden index of the caller's range loop
+				name = "rangeindex" + strings.TrimPrefix(name, "G_idx")
+			}
+			if v, ok := x.localByName(env, env.callerFrame, name); ok {
 				return v
 			}
 			return env.fail("caller has no variable %s", s.Sel.Name)
@@ -812,6 +817,10 @@ func (x *Exec) evalCall(env *SpecEnv, c *ast.CallExpr) specVal {
 				st = env.old
 			}
 			return specVal{term: x.strOfBytes(st, v.term), typ: ty}
+		}
+		if to == "Iface" {
+			// any(x): box the value like a MakeInterface instruction does
+			return specVal{term: x.makeIface(env.st, v.typ, v.term), typ: ty}
 		}
 		return env.fail("unsupported conversion %s -> %s", v.typ, ty)
 	}
